@@ -129,7 +129,17 @@ def run(ck, rng, tier):
         inp.append("outer %s %s" % (vf.fmt_vec(a), vf.fmt_vec(b)))
         meta.append(("outer", (m, n), a, b))
         M = rmat(rng, m, n, rng.choice((None, 0, 3)))
-        if _ % 7 == 5:   # entries of order 1e-5: every column sum lies between 1e-6 and 1e-3
+        if _ in (6, 8, 9, 11):   # square shapes (1, 4, 17) and matrices without any positive entry
+            m, n = ((1, 1), (4, 4), (17, 17), (3, 1))[(6, 8, 9, 11).index(_)]
+            M = rmat(rng, m, n, 0)
+            b = [rnd_val(rng, None) for _q in range(n)]
+            if _ in (6, 11):
+                M = [[-abs(x) - 0.5 for x in r] for r in M]
+        elif _ in (1, 2, 4):   # row / column counts one above a multiple of 32
+            m, n = ((33, 3), (2, 65), (65, 33))[(1, 2, 4).index(_)]
+            M = rmat(rng, m, n, 0)
+            b = [rnd_val(rng, None) for _q in range(n)]
+        elif _ % 7 == 5:   # entries of order 1e-5: every column sum lies between 1e-6 and 1e-3
             M = [[rng.choice((-1, 1, 1, 1)) * rng.uniform(0.5, 4.0) * 1e-5 for b in range(n)] for a in range(m)]
         elif _ % 7 == 3:   # a matrix whose columns lie entirely just above (or below the negative of) the missing-value code
             sgn_ = rng.choice((1.0, -1.0))
